@@ -153,10 +153,11 @@ namespace nmtools::utl
         vector(size_type N)
             : allocator{}
             , buffer_(allocator.allocate(N))
-            , size_(N)
+            , size_(0)
             , buffer_size_(N)
             , initialized(true)
         {
+            // grows from 0 to N inside the block allocated above: value-initialises all N elements
             resize(N);
         }
         vector(const vector& other)
